@@ -188,6 +188,21 @@ CHECKS['C19'] = dict(
     note='trusted: casefold uninterpreted, zipfile and VPK I/O, pyvc; for names differing only in case the backends '
          'may keep different candidates (container order) - accepted; backslash spellings on a real directory are host '
          'dependent and not required.')
+CHECKS['C06'] = dict(
+    category='other',
+    technique='contract-style AST obligations over every export/parse pair of vmf.py (type-directed escaping obligation, '
+              'array-shape agreement for displacement data, fixup key/index agreement discharged by z3 over strings, editor '
+              'key coverage, ordering); bounded generator-based round trip of whole maps',
+    text='Decided deductively on the real source: every interpolation of every write in every export method is '
+         'classified by the declared type of what it prints, and str-typed data must pass through escape_text; the '
+         'writer key replace{id:02} and the reader slice convert every id >= 0 back to itself (z3 strings); for powers '
+         '1-4 every displacement array is written with the row count and width its reader requires, inside dispinfo; '
+         'every editor key written by Solid/Entity/EntityGroup.export is read by the matching parse; id sets are written '
+         'sorted; entities are read in file order. The round-trip laws over whole maps (second export identical, same '
+         'object graph within 5e-7 / six significant digits, options minimal / disp_multiblend / preserve_ids, the .vmf '
+         'files under tests/) are a bounded stand-in over generated maps - not counted as proved.',
+    note='trusted: escape/unescape inverse (C02), number printing/parsing within tolerance (C05), annotations describe '
+         'attribute values.')
 CHECKS['C07'] = dict(
     category='proof',
     technique='contract-based deductive verification: pyvc proof that the index invariant is preserved by the real '
